@@ -4,6 +4,8 @@
      E|enc|c1;...;last            ->  same for encode
      R|enc|force|c1;...;last      ->  as D, for the codec table whose hypotheses are proved in Coq (CodecInstances: r_init, r_step, r_shot)
      W|enc|c1;...;cn              ->  StreamWriter: the result of every write (CodecConcrete.c_sw_trace)
+     Q|enc|force|c1;...;cn        ->  StreamReader.read() on a stream delivering c1..cn then EOF: the result of every decode call
+     V|enc|force|bytes            ->  1 if the input is in the divergent set of CodecBom.divergent_input, else 0
      S|final|bytes                ->  detectencoding_str        : CRASH | NONE x | SOME cps x
      U|final|text                 ->  detectencoding_unicode
      F|final|enc|text             ->  _fixencoding              : NONE | SOME cps
@@ -18,6 +20,7 @@ let str_out l = String.concat " " (List.map (fun c -> string_of_int (int_of_n c)
 let str_in x = List.map (fun v -> n_of_int (int_of_string v)) (List.filter (fun v -> v <> "") (String.split_on_char ' ' x))
 let opt_in x = if String.trim x = "-" then None else Some (str_in x)
 let chunks_in x = List.map str_in (String.split_on_char ';' x)
+let chunks_in0 x = if String.trim x = "" then [] else chunks_in x
 let rec split_last = function [] -> ([], []) | [x] -> ([], x) | x :: r -> let (a, b) = split_last r in (x :: a, b)
 let err_name = function EUnicode -> "Unicode" | ELookup -> "Lookup" | EValue -> "Value" | EAttr -> "Attr" | EType -> "Type" | EIndex -> "Index"
 let res_out = function Ok o -> "OK " ^ str_out o | Err e -> "ERR " ^ err_name e
@@ -38,6 +41,8 @@ let () =
           let (chunks, last) = split_last (chunks_in cs) in
           let enc = opt_in enc and force = (force = "1") in
           res_out (r_decode (List.concat chunks @ last) enc force) ^ " # " ^ trace_out (r_dec_trace enc force chunks last)
+        | ["Q"; enc; force; cs] -> trace_out (c_sr_trace (opt_in enc) (force = "1") (chunks_in0 cs))
+        | ["V"; enc; force; b] -> if divergent_input (opt_in enc) (force = "1") (str_in b) then "1" else "0"
         | ["W"; enc; cs] -> trace_out (c_sw_trace (opt_in enc) (chunks_in cs))
         | ["E"; enc; cs] ->
           let (chunks, last) = split_last (chunks_in cs) in
